@@ -30,7 +30,7 @@ PYOP = {"add": lambda a, b: a + b, "sub": lambda a, b: a - b, "mul": lambda a, b
 
 LAB = {
     "x": {"inc": ("i", [10, 20, 30]), "dec": ("i", [30, 20, 10]), "ovl": ("i", [20, 30, 40]), "nest": ("i", [10, 20]),
-          "disj": ("i", [40, 50]), "shuf": ("i", [30, 10, 20]), "flt": ("f", [10.0, 20.0, 30.0]), "fovl": ("f", [20.0, 25.5]),
+          "disj": ("i", [40, 50]), "shuf": ("i", [30, 10, 20]), "flt": ("f", [10.0, 20.0, 30.0]), "fovl": ("f", [20.0, 30.5]),
           "one": ("i", [20])},
     "y": {"inc": ("O", ["a", "b"]), "dec": ("O", ["b", "a"]), "ovl": ("O", ["b", "c"]), "shuf": ("O", ["c", "a", "b"])},
     "z": {"inc": ("f", [0.5, 1.5]), "dec": ("f", [1.5, 0.5]), "ovl": ("f", [1.5, 2.5])},
@@ -60,6 +60,9 @@ def pool(tier):
     xs = ["inc", "dec", "ovl", "nest", "disj", "shuf", "flt", "fovl", "one"]
     for v in xs:
         add(["x"], [v])
+    for perm in itertools.permutations(range(4)):      # every storage order of 4 labels (interior permutations included)
+        LAB["x"]["p%d%d%d%d" % perm] = ("i", [[10, 20, 30, 40][q] for q in perm])
+        add(["x"], ["p%d%d%d%d" % perm])
     for v in LAB["y"]:
         add(["y"], [v])
     for v in LAB["z"]:
